@@ -73,13 +73,14 @@ theorem reverse_apply_diff {S : Schema} {fx : Fixes} (K : KeyOrder S) {A B₀ : 
 
 /-- `reverse_apply` on the fragment, with the literal second tree — the law as the check evaluates it (`reverseApply` =
 `lyd_diff_apply_all(B, lyd_diff_reverse_all(lyd_diff_siblings(A, B, DEFAULTS)))`): for well-formed `A`, `B` it succeeds and
-gives `A` back (structure, values, default flags of leaves / leaf-list instances).  `KeysDistinguished` is the hypothesis of C06
-`apply_diff_partial` (instances the `sort` callback cannot tell apart are the same instance).  Uses `apply_congr`
-(Diff/LemmasCongr.lean): `lyd_diff_apply_all` respects the observation in its data argument, for every diff and schema. -/
+gives `A` back (structure, values, default flags of leaves / leaf-list instances).  Combines C06 `apply_diff_partial` (its
+hypothesis `KeysDistinguished` follows from `KeyOrder`: `keysDistinguished_of_keyOrder`), `diff_exact`, `reverse_apply_partial`
+and `apply_congr` (Diff/LemmasCongr.lean): `lyd_diff_apply_all` respects the observation in its data argument, for every diff
+and every schema. -/
 theorem reverse_apply {S : Schema} {fx : Fixes} (K : KeyOrder S) (A B : List DNode) (hA : wfForest S A = true)
-    (hB : wfForest S B = true) (hk : KeysDistinguished S (A ++ B)) :
+    (hB : wfForest S B = true) :
     ∃ A', reverseApply S true A B fx = .ok A' ∧ dataEqL true A' A = true := by
-  obtain ⟨R, A', hR, hA', hn⟩ := reverse_apply_literal (fx := fx) K A B hA hB hk
+  obtain ⟨R, A', hR, hA', hn⟩ := reverse_apply_literal (fx := fx) K A B hA hB
   refine ⟨A', ?_, (dataEqL_iff_norm A' A).mpr hn⟩
   simp [reverseApply, hR, Except.bind, applyD, hA']
 
@@ -91,44 +92,8 @@ whose key children are missing: `x` = an instance without key children, `y` = on
 for keyed lists `KeyOrder` would have to be restricted to instances with all their keys (a stronger `Dom` / `goodT`).
 `diff_exact`, `reverse_involutive_diff` and `apply_congr` do not assume `KeyOrder` and cover keyed lists. -/
 theorem keyOrder_no_keyed_list {S : Schema} (K : KeyOrder S) {s k : Nat} (hs : S.isSorted s = true)
-    (hl : S.isKind s .list = true) (hk : S.isKey k = true) : False := by
-  have hkind : S.kind? s = some .list := isKind_iff.mp hl
-  have hnt : S.isTerm s = false := by simp [Schema.isTerm, Schema.isKind, hkind]
-  have hnu : S.isUserOrd s = false := by
-    unfold Schema.isSorted at hs
-    unfold Schema.isUserOrd
-    cases hg : S.get? s with
-    | none => rfl
-    | some n => simp [hg] at hs ⊢; simp [hs.1]
-  have hnk : S.nkeys s ≠ 0 := by
-    unfold Schema.isSorted at hs
-    unfold Schema.isKind Schema.kind? at hl
-    unfold Schema.nkeys
-    cases hg : S.get? s with
-    | none => simp [hg] at hs
-    | some n =>
-      simp [hg] at hs hl ⊢
-      rcases hs.2 with h | h
-      · rw [hl] at h; exact absurd h (by decide)
-      · exact h.2
-  have hnd : S.isDupInst s = false := by
-    unfold Schema.isDupInst
-    unfold Schema.isKind Schema.kind? at hl
-    unfold Schema.nkeys at hnk
-    cases hg : S.get? s with
-    | none => rfl
-    | some n =>
-      simp [hg] at hl hnk ⊢
-      simp [hl, hnk]
-  let x : DNode := .inner s {} [] []
-  let y : DNode := .inner s {} [] [.term k {} [] []]
-  have hx : Dom S x := ⟨hnu, hnd, by simp [x, DNode.isTerm, DNode.sid, hnt]⟩
-  have hy : Dom S y := ⟨hnu, hnd, by simp [y, DNode.isTerm, DNode.sid, hnt]⟩
-  have hsame : sameInst S x y = false := by
-    simp [sameInst, x, y, DNode.sid, DNode.kids, hkind, hnk, keysOf, hk, keysEq]
-  rcases K.total hx hy rfl hs hsame with h | h
-  · simp [cmpInst, x, y, DNode.isTerm, DNode.kids, keysOf, cmpKeys] at h
-  · simp [cmpInst, x, y, DNode.isTerm, DNode.kids, keysOf, cmpKeys] at h
+    (hl : S.isKind s .list = true) (hk : S.isKey k = true) : False :=
+  keyOrder_no_keyed_list' K hs hl hk
 
 /-! ### a non-trivial instance: leaf replace with default-flag change, leaf delete, leaf-list create / delete, container delete -/
 
@@ -162,7 +127,6 @@ example : stdL (diff exS true exA exB) = true := by decide +kernel
 example : wfForest exS exA = true ∧ wfForest exS exB = true := by decide +kernel
 example : ∃ A', reverseApply exS true exA exB = .ok A' ∧ dataEqL true A' exA = true :=
   reverse_apply (keyOrder_of_stringLL (by decide +kernel)) exA exB (by decide +kernel) (by decide +kernel)
-    (keysDistinguished_of_check _ _ (by decide +kernel))
 example : exactDiff exS exA (diff exS true exA exB) = true := diff_exact exS exA exB (by decide +kernel) (by decide +kernel)
 
 /-- `reverse_involutive` for every computed diff of well-formed trees, unconditionally: `diff(A, B)` is exact (`diff_exact`)
